@@ -665,6 +665,36 @@ func c02Enumerate(quick bool, visit func(label string, decls gd) bool) {
 			}
 		}
 	}
+	// Level F: a failing function with and without ignore_error - inline, inside a referenced template,
+	// and as lenient / strict twins with the same arguments on one node (in both name orders)
+	{
+		mk := func(first string, ignore bool) gd {
+			cf := gd{"name": "testfn", "args": []interface{}{gd{"const": first}, gd{"const": "1", "type": "int"}, gd{"const": "1", "type": "float"}, gd{"const": "true", "type": "boolean"}}}
+			if ignore {
+				cf["ignore_error"] = true
+			}
+			return gd{"custom_func": cf}
+		}
+		for _, first := range []string{"boom", "fine"} {
+			lenient, strict := mk(first, true), mk(first, false)
+			for _, sets := range []gd{
+				{"FINAL_OUTPUT": gd{"object": gd{"k": gd{"template": "T"}, "o": gd{"xpath": "c"}}}, "T": lenient},
+				{"FINAL_OUTPUT": gd{"object": gd{"k": gd{"template": "T"}, "o": gd{"xpath": "c"}}}, "T": strict},
+				{"FINAL_OUTPUT": gd{"object": gd{"k": gd{"template": "T2"}}}, "T2": gd{"object": gd{"in": gd{"template": "T"}}}, "T": lenient},
+				{"FINAL_OUTPUT": gd{"object": gd{"a": lenient, "b": strict}}},
+				{"FINAL_OUTPUT": gd{"object": gd{"a": strict, "b": lenient}}},
+				{"FINAL_OUTPUT": gd{"object": gd{"a": lenient, "b": gd{"template": "T"}}}, "T": strict},
+				{"FINAL_OUTPUT": gd{"object": gd{"a": gd{"template": "T"}, "b": strict}}, "T": lenient},
+				{"FINAL_OUTPUT": gd{"array": []interface{}{lenient, strict}}},
+				{"FINAL_OUTPUT": gd{"object": gd{"k": gd{"custom_func": gd{"name": "concat", "args": []interface{}{lenient, gd{"const": "|"}}}}}}},
+				{"FINAL_OUTPUT": gd{"object": gd{"k": gd{"xpath_dynamic": lenient}, "z": strict}}},
+			} {
+				if !visit("F:ignore-error-inline-template-twins", sets) {
+					return
+				}
+			}
+		}
+	}
 	// Level E: arrays (and objects) inside the subtree of an xpath_dynamic, directly, as a function's
 	// argument and through a template; alone and next to an identical function call outside (one cache)
 	for _, elemXP := range []string{"c", "a", "*", "a/a"} {
